@@ -6,6 +6,8 @@ import math
 from mc.world import make_calc, step_trace
 
 PID = 'C05'
+# thread bodies (defined with engine E4, mc/checks/c10_sched.py) that exercise this property's code; explored after the parts below
+SCHED_SETS = [('fire||fire(G1)', 'call')]
 LEVEL = 'exploration'
 ENGINE = 'E1'
 TECHNIQUE = 'bounded exhaustive enumeration (full product look x atmosphere x twist x bullet data x result mode), every row of every result recomputed from its primitives with independent Miller/Litz and lapse-rate formulas'
@@ -219,12 +221,17 @@ def reuse(cell):
     the second result must still follow the formulas (nothing derived per shot may be carried over)"""
     import py_ballisticcalc as pb
     U = pb.Unit
-    (atmo1, mv1, bullet1, tw1), (atmo2, mv2, bullet2, tw2) = cell
+    (atmo1, mv1, bullet1, tw1), (atmo2, mv2, bullet2, tw2) = cell[:2]
+    first_use = cell[2] if len(cell) > 2 else 'fire'
     calc = make_calc()
     first = _shot(0.0, atmo1, tw1, bullet1, mv1)
     try:
-        calc.fire(first, U.Yard(300), U.Yard(100))
-    except pb.RangeError:
+        if first_use == 'fire':
+            calc.fire(first, U.Yard(300), U.Yard(100))
+        else:
+            # the first use is a zeroing - one that succeeds, or one that fails inside the search (target far beyond reach)
+            calc.set_weapon_zero(first, U.Yard(100 if first_use == 'zero_ok' else 6000))
+    except (pb.RangeError, pb.ZeroFindingError):
         pass
     second = _shot(0.0, atmo2, tw2, bullet2, mv2)
     second0 = _shot(0.0, atmo2, 0.0, bullet2, mv2)
@@ -242,11 +249,11 @@ def reuse(cell):
         if (bullet2 == 'noweight' or vacuum) and abs(sd) <= 1e-12:
             ok = True
         if not ok:
-            out.append({'msg': f'calculator first used for {cell[0]} then for {cell[1]}: row {i} spin drift {sd!r} ft, Litz/Miller for the SECOND shot give {exp!r} ft (Sg={S:.4f})', 'key': None})
+            out.append({'msg': f'calculator first used ({first_use}) for {cell[0]} then for {cell[1]}: row {i} spin drift {sd!r} ft, Litz/Miller for the SECOND shot give {exp!r} ft (Sg={S:.4f})', 'key': None})
             break
         e_ref = w * (r.velocity >> U.FPS) ** 2 / 450400
         if abs((r.energy >> U.FootPound) - e_ref) > 2e-4 * max(1e-9, e_ref):
-            out.append({'msg': f'calculator first used for {cell[0]} then for {cell[1]}: row {i} energy {r.energy >> U.FootPound!r}, weight of the SECOND bullet gives {e_ref!r}', 'key': None})
+            out.append({'msg': f'calculator first used ({first_use}) for {cell[0]} then for {cell[1]}: row {i} energy {r.energy >> U.FootPound!r}, weight of the SECOND bullet gives {e_ref!r}', 'key': None})
             break
     return {'v': out, 'n': 2, 'nt': cell if cell[0] != cell[1] else None, 'obs': [cell[0][2], cell[1][2]]}
 
@@ -292,7 +299,7 @@ def plan(tier):
         cells = [c for c in cells if not (c[4] == 'trace' and (c[3] != 'full' or c[0] in (-20.0,)))]
     variants = [['icao', 2750.0, 'full', 12.0], ['hot', 2750.0, 'full', 12.0], ['icao5k', 2200.0, 'full', 12.0], ['icao', 2750.0, 'nolength', 12.0],
                 ['icao', 2750.0, 'noweight', 12.0], ['icao', 2750.0, 'full', -8.0], ['icao', 2750.0, 'full', 0.0], ['vac5k', 2750.0, 'full', 12.0]]
-    ru = [[a, b] for a in variants for b in variants]
+    ru = [[a, b] for a in variants for b in variants] + [[a, b, fu] for a in variants[::3] for b in variants for fu in ('zero_ok', 'zero_fail')]
     cells += [[lk, a, tw, 'full', mode, ex] for lk in (0.0, 20.0) for a in ('icao', 'hot') for tw in (12.0, -8.0) for mode in ('plain', 'extra', 'incomplete')
               for ex in ({'wind': True}, {'cant': 30.0, 'rel': 10.0}, {'wind': True, 'cant': -20.0})]
     cells += [[0.0, a, tw, 'full', 'back', {'back': b}] for a in ('icao', 'hot') for tw in (12.0, 0.0) for b in ('blown', 'reverse')]
